@@ -111,6 +111,37 @@ Theorem C17_no_leftovers : forall g groot ops x,
 Proof. exact no_leftovers. Qed.
 Print Assumptions C17_no_leftovers.
 
+(* ... the whole block (header and body), by number: GetBlockByNumber answers the finalised
+   chain's block for every number up to the head's *)
+Theorem C17_finalised_block_by_number : forall g groot ops n x,
+  history_ok g ops ->
+  In (n, x) (f_chain (frun (f_genesis g groot) ops)) ->
+  block_by_number (srun (genesis_state g groot) ops) n = Ok x.
+Proof. exact finalised_block_by_number. Qed.
+Print Assumptions C17_finalised_block_by_number.
+
+(* ... and neither the body nor the whole block of an abandoned block can be retrieved
+   (HasBlockBody / GetBlockBody / GetBlockByHash) *)
+Theorem C17_no_leftover_blocks : forall g groot ops x,
+  history_ok g ops ->
+  f_abandoned (frun (f_genesis g groot) ops) x = true ->
+  has_body (srun (genesis_state g groot) ops) x = false
+  /\ get_block (srun (genesis_state g groot) ops) x = false.
+Proof. exact no_leftover_blocks. Qed.
+Print Assumptions C17_no_leftover_blocks.
+
+(* Block numbers are Go uint; the model's are unbounded.  On every history shorter than 2^64 - 1
+   operations the block tree's AddBlock with the 64-bit wrap-around made explicit
+   (BlockTree.Model.add_block64) is the AddBlock of the model, in every reachable state: the bound
+   is an explicit hypothesis here, not a silent one (witness that it is needed:
+   C15_uint64_bound_needed). *)
+Theorem C17_uint64_block_numbers : forall g groot ops hd a,
+  history_ok g ops -> N.of_nat (length ops) + 1 < two64 ->
+  add_block64 (bs_tree (srun (genesis_state g groot) ops)) hd a
+  = add_block (bs_tree (srun (genesis_state g groot) ops)) hd a.
+Proof. exact uint64_block_numbers. Qed.
+Print Assumptions C17_uint64_block_numbers.
+
 (* non-vacuity: forks, a finalisation that abandons two blocks, then a stale, an abandoned and
    an unknown target and a stale set id, all refused with the state unchanged; then an accepted
    request in a higher set *)
@@ -124,6 +155,9 @@ Example C17_nonvacuous :
   /\ map (bs_hash_by_number st) [0; 1; 2] = [Ok 100; Ok 1; Ok 2]
   /\ map (fun n => lookup n (bs_num st)) [0; 1; 2; 3] = [Some 100; Some 1; Some 2; None]
   /\ map (has_header st) [100; 1; 2; 3; 4; 5] = [true; true; true; false; false; true]
+  /\ map (get_block st) [100; 1; 2; 3; 4; 5] = [true; true; true; false; false; true]
+  /\ map (block_by_number st) [0; 1; 2; 3] = [Ok 100; Ok 1; Ok 2; Ok 5]
+  /\ N.of_nat (length ops) + 1 < two64
   /\ bs_tries st = [1005; 1002]
   /\ f_abandoned f 3 = true
   /\ map (fun h => f_accepts f h 1) [1; 3; 77; 5] = [false; false; false; true]
